@@ -15,6 +15,7 @@ import (
 
 	"golang.org/x/tools/go/analysis"
 	"honnef.co/go/tools/analysis/lint"
+	"honnef.co/go/tools/internal/verifharness/batch"
 	"honnef.co/go/tools/internal/verifhook"
 	"honnef.co/go/tools/internal/verifsim"
 	"honnef.co/go/tools/internal/verifsim/simos"
@@ -213,8 +214,12 @@ func StdBase(scratch string, flags []string, env []string) (*simos.FS, error) {
 	if b, ok := stdBases[key]; ok {
 		return b.Clone(), nil
 	}
-	dir, err := os.MkdirTemp(scratch, "verif-stdbase")
-	if err != nil {
+	// a deterministic directory: absolute paths end up in cached bytes
+	hk := fnv.New64a()
+	hk.Write([]byte(key))
+	dir := batch.ModDir("stdbase", fmt.Sprintf("%016x", hk.Sum64()))
+	defer batch.LockModDir(dir)()
+	if err := os.MkdirAll(dir, 0777); err != nil {
 		return nil, err
 	}
 	defer os.RemoveAll(dir)
